@@ -416,6 +416,20 @@ def nested_quant_cases():
                 k = Case(S([outer, L("b")]), "", "nq_%s_%s_%s" % (iname, qn1, qn2))
                 k.widths, k.nmax, k.lens, k.ascii_only = (1,), 3, None, False
                 out.append(k)
+    # loops inside a lookaround inside a loop (loop state of the inner attempt vs the enclosing loop)
+    b, c, d, x = L("b"), L("c"), L("d"), L("x")
+    for tag, node, nmax in [
+        ("la_inner_star", Quant(Group(Look(S([b, Quant(Group(S([c, d]), cap=False), 0, None)])), cap=False), 0, None), 3),
+        ("la_inner_star_lazy_outer", S([Quant(Group(Look(S([b, Quant(Group(S([c, d]), cap=False), 0, None)])), cap=False), 0, None, False), c]), 3),
+        ("lb_inner_star", S([x, Quant(Group(Look(S([Quant(Group(S([c, d]), cap=False), 0, None), x]), ahead=False), cap=False), 0, None), End()]), 5),
+        ("la_inner_plus_cap", Quant(Group(S([Look(Quant(Group(S([L("a"), b])), 1, None)), Quant(L("a"), 0, 1)]), cap=False), 1, 3), 4),
+        ("neg_la_inner_range", S([Quant(Group(Look(Quant(Group(S([L("a"), b]), cap=False), 1, 2), neg=True), cap=False), 0, None), L("a")]), 3),
+        ("sibling_loops", S([Quant(Group(S([L("a"), b]), cap=False), 0, None), Quant(Group(S([c, d]), cap=False), 0, None), x]), 5),
+        ("sibling_in_outer", Quant(Group(S([Quant(Group(S([L("a"), b]), cap=False), 0, 1), Quant(Group(S([c, d]), cap=False), 0, 1)]), cap=False), 0, None), 4),
+    ]:
+        k = Case(node if isinstance(node, Seq) else S([node]), "", "nqla_" + tag)
+        k.widths, k.nmax, k.lens, k.ascii_only = (1,), nmax, None, False
+        out.append(k)
     for iname, mk in inners[:4]:
         for qn1, mn1, mx1, g1 in quants[2:6]:
             inner = Quant(Group(mk(), cap=False), mn1, mx1, g1)
@@ -505,7 +519,7 @@ def main(argv):
     if mode_prop == "C05":
         cases = nested_quant_cases()
         if tier == "quick":
-            cases = [c for i, c in enumerate(cases) if (i + seed) % 6 == 0 or c.tag in ("nq_opt_1_2",)]
+            cases = [c for i, c in enumerate(cases) if (i + seed) % 6 == 0 or c.tag in ("nq_opt_1_2",) or c.tag.startswith("nqla_")]
     else:
         cases = smt_cases() + random_cases(seed, 12 if tier == "quick" else 150)
         _EXTRA.extend(cases[len(smt_cases()):])
